@@ -43,9 +43,9 @@ CLAIMED = {
     "C14": ("Proved for every feature AST (strand, any number of segments, codon_start): the ordered position list derived on the GenBank path, for complement(join(..)) and for join(complement(..),..), equals the one derived on the GFF3 path from the equivalent rows. Correspondence: one AST rendered both ways, parsed by the real code; regions compared field by field (name, strand, positions, translation) with the AST-level Coq model; variants run with each rendering on the same alignment must list the same mutations; each output byte for byte against the Coq caller model and against the statement-level oracle.",
             "Coq proof (AST-level position lists) + correspondence check over both renderings",
             "The text parsers (FEATURES/ORIGIN, GFF rows, location strings) are modelled at AST level only and exercised by rendering and re-parsing.", "5 C14"),
-    "C02": ("PARTIAL proof: for every CIGAR over the nine operators, with and without insertion columns, the paired walk yields rows of equal length whose reference row, with its gap columns removed, is exactly the stretch of the reference the CIGAR consumes; for one record the reference row degapped is the reference prefix up to the alignment end. The multi-record re-gapping loop, flattening, right-extension, window cut, wrap and file writer are an executable Coq model compared byte for byte with sam.ToPairAlign (directory output), and the implementation's files are compared with pairs written from the statement (reference row = reference with '-' exactly at the query's insertions; query row = toMultiAlign --pad row with the inserted bases in place).",
-            "Coq proof (partial: induction over CIGAR operators) + correspondence check + statement-level oracle",
-            "PARTIAL: no theorem yet for multi-record blocks (regap / flatten / extension); decided there by the oracle and the differential run. Non-conflicting blocks only (pairwise distinct insertion positions), as the property states.", "5 C02"),
+    "C02": ("Proved for every CIGAR over the nine operators, with and without insertion columns: the paired walk yields rows of equal length whose reference row, with its gap columns removed, is exactly the stretch of the reference the CIGAR consumes. Proved for queries described by ANY number of records (single, supplementary, overlapping): the whole pipeline - per-record rows, the re-gapping loop over the sorted insertions (find_col / regap_row), '*'-padding, column-wise flattening, right-extension - yields as reference row exactly the canonical gapped reference (after the k-th base, the total length of the block's insertions at k), so removing '-' gives exactly the reference, the gap columns are exactly the inserted bases (|R| = |ref| + total inserted length), and the query row has the same length. The content of the multi-record query row, --skip-insertions, window cut (C15 theorem), wrap and file writer are an executable Coq model compared byte for byte with sam.ToPairAlign (directory output), and the implementation's files are compared with pairs written from the statement (reference row = reference with '-' exactly at the query's insertions; query row = toMultiAlign --pad row with the inserted bases in place).",
+            "Coq proof (induction over CIGAR operators; segment representation and invariant over the re-gapping loop) + correspondence check + statement-level oracle",
+            "PARTIAL: the reference-row clauses are proved for all blocks (no distinctness assumption needed); the CONTENT of the multi-record query row and its equality with the toMultiAlign --pad row have no theorem (oracle and differential run, on non-conflicting blocks as the property states). Hypotheses: the reference has no '-' and no byte below '*'.", "5 C02"),
     "C11": ("Model-level theorem: `sam variants` applies the shared caller to the encoded rows block_to_seq_pair builds, i.e. to the pair `sam toPairAlign` writes (reading that pair back from FASTA unchanged is C16). Correspondence with the real commands: sam variants vs its Coq model byte for byte; and, Go against Go as the statement says, sam variants vs variants --msa on the files written by sam toPairAlign, and vs variants on the sam toMultiAlign --pad rows of insertion-free queries.",
             "Coq proof (definitional reduction to the shared caller) + three-command correspondence check",
             "The theorem is short: the substance is in C02/C04/C05/C16 and in the cross-command differential run.", "5 C11"),
